@@ -87,6 +87,8 @@ func cmdRun(args []string) {
 	nomerge := fs.Bool("no-merge", false, "disable if-conversion")
 	maporder := fs.String("maporder", "insertion", "map order policy")
 	hdir := fs.String("harness-dir", "/verif/harness", "harness dir")
+	noint := fs.Bool("no-int", false, "disable integer mode")
+	prefix := fs.String("prefix", "", "DFS prefix")
 	fs.Parse(args)
 	var iargs []int
 	if *argstr != "" {
@@ -104,8 +106,20 @@ func cmdRun(args []string) {
 		fmt.Println(err)
 		os.Exit(2)
 	}
-	res := sym.RunJob(p, sym.Job{Pkg: full, Harness: *harness, Args: iargs, Cfg: sym.JobConfig{NoMerge: *nomerge, MapOrder: *maporder, SampleEvery: 1, MaxSamples: 3}}, *solver, 60000)
+	res := sym.RunJob(p, sym.Job{Pkg: full, Harness: *harness, Args: iargs, Prefix: parseInts(*prefix), Cfg: sym.JobConfig{NoMerge: *nomerge, NoIntMode: *noint, MapOrder: *maporder, SampleEvery: 1, MaxSamples: 3}}, *solver, 60000)
 	res.Functions = nil
 	out, _ := json.MarshalIndent(res, "", " ")
 	fmt.Println(string(out))
+}
+
+func parseInts(s string) []int {
+	var r []int
+	if s == "" {
+		return nil
+	}
+	for _, a := range strings.Split(s, ",") {
+		v, _ := strconv.Atoi(a)
+		r = append(r, v)
+	}
+	return r
 }
